@@ -80,6 +80,47 @@ def real_read_config(C, data, tmp):
     return res
 
 
+WARN_PREFIX = {"I": "WARNING: expecting integer", "B": "WARNING: expecting boolean", "U": "WARNING: unknown config variable",
+               "O": "WARNING: could not open", "R": "WARNING: could not read"}
+
+
+def learn_cfg_warnings(C, tmp):
+    """What the three per-line warnings look like is learnt from the code (probe files), so that rewording a message does not
+    change which KIND of warning a line is counted as."""
+    probes = {"I": (b"precision=qzq7\n", ("precision", "qzq7")), "B": (b"save-history=qzq7\n", ("save-history", "qzq7")),
+              "U": (b"qzq7=1\n", ("qzq7",))}
+    learnt = {}
+    for kind, (data, marks) in probes.items():
+        res = real_read_config(C, data, tmp)
+        lines = [l for l in (res[2] if res[0] == "ok" else "").split("\n") if l]
+        if len(lines) != 1:
+            return
+        cut = min([lines[0].index(m) for m in marks if m in lines[0]] or [0])
+        if cut < 8:
+            return
+        learnt[kind] = lines[0][:cut]
+    if len(set(learnt.values())) == 3 and not any(a != b and a.startswith(b) for a in learnt.values() for b in learnt.values()):
+        WARN_PREFIX.update(learnt)
+
+
+def same_settings(got, want):
+    """every valid line took effect.  A location option may be delivered as a path object or with `~` expanded / the path
+    normalised (the property speaks about the setting taking effect, not about its Python representation)."""
+    if got == want:
+        return True
+    if set(got) != set(want):
+        return False
+    for k in want:
+        g, w = got[k], want[k]
+        if g == w and type(g) is type(w):
+            continue
+        if k.endswith("path") and isinstance(w, str) and w and isinstance(g, (str, os.PathLike)):
+            if os.path.normpath(os.path.expanduser(os.fspath(g))) == os.path.normpath(os.path.expanduser(w)):
+                continue
+        return False
+    return True
+
+
 def canon_cfg(cfg, errtext):
     items = []
     for k, v in cfg.items():
@@ -88,20 +129,13 @@ def canon_cfg(cfg, errtext):
         elif isinstance(v, int):
             t = "i%d" % v
         else:
-            t = "s" + dots(v)
+            t = "s" + dots(v if isinstance(v, str) else str(v))
         items.append(dots(k) + "=" + t)
     kinds = []
     for line in errtext.split("\n")[:-1]:
-        if line.startswith("WARNING: expecting integer"):
-            kinds.append("I")
-        elif line.startswith("WARNING: expecting boolean"):
-            kinds.append("B")
-        elif line.startswith("WARNING: unknown config variable"):
-            kinds.append("U")
-        elif line.startswith("WARNING: could not open"):
-            kinds.append("O")
-        elif line.startswith("WARNING: could not read"):
-            kinds.append("R")
+        k_ = next((k for k in "IBUOR" if line.startswith(WARN_PREFIX[k])), None)
+        if k_:
+            kinds.append(k_)
         else:
             kinds.append("?")
     return ";".join(items) + "|" + ",".join(kinds)
@@ -118,7 +152,7 @@ INT_GOOD = [("3", 3), ("0", 0), ("12", 12), ("+7", 7), ("-4", -4), ("1_0", 10), 
 INT_BAD = ["", "abc", "3.5", "1e3", "0x10", "_1", "1_", "1__2", "+", "-", "--1", "+-1", "1 2", "٣_", "²", "1\x002", "12a", "true", "½"]
 BOOL_BAD = ["True", "TRUE", "1", "0", "yes", "", "tru", "fa lse", "falsee", "t r u e"]
 STR_VALS = [">>>", "ka>", "a=b", "=", "==x==", "Ctrl+Up", "/tmp/x y/z", "héllo ☃", "x" * 300, "a\tb", "a b  c", "#c", "\U0001F600", "a\x00b",
-            "usd", "eur", "€", ""]
+            "usd", "eur", "€", "", "~qzqnouser", "~qzqnouser/hist", "~", "~/x", "$HOME/x", "${X", "%s %d", "{0}", "\\", "..", "/", "//x//", "x/", "C:\\x"]
 
 
 def gen_config_file(rng, props, big=False):
@@ -235,6 +269,40 @@ def run_py(home, argv, stdin=None, timeout=60):
         return -9, "", "TIMEOUT"
 
 
+MSG = {"currency": "Failed to parse currency data", "load": "Failed to load history", "save": "Failed to save history"}
+
+
+def learn_warnings(root):
+    """How the three soft-fail warnings start is learnt from three probe runs (a damaged currency table; a directory in place
+    of the history file), so that rewording them does not change what is counted as which warning."""
+    def first_line_prefix(err, home):
+        lines = [l for l in err.split("\n") if l.strip()]
+        if len(lines) < 1 or "Traceback" in err:
+            return None
+        cut = min([lines[0].index(m) for m in (home, ":", ".config") if m in lines[0]] or [len(lines[0])])
+        return lines[0][:cut] if cut >= 10 else None
+    try:
+        home = os.path.join(root, "learn-cur")
+        os.makedirs(os.path.join(home, ".config", "ka"))
+        open(os.path.join(home, ".config", "ka", "currency"), "w").write("usd,usdollar,1\nxyz,onlytwo\n")
+        rc, out, err = run_py(home, ["-m", "ka.cli", "1+1"])
+        pc = first_line_prefix(err, home) if rc == 0 else None
+        home = os.path.join(root, "learn-hist")
+        os.makedirs(os.path.join(home, ".config", "ka", "history"))
+        rc, out, err = run_py(home, ["-m", "ka.cli"], stdin=b"1+1\n%q\n")
+        lines = [l for l in err.split("\n") if l.strip()]
+        pl = ps = None
+        if rc == 0 and len(lines) == 2 and "Traceback" not in err:
+            pl, ps = (first_line_prefix(l, home) for l in lines)
+        if pc and pl and ps and len({pc, pl, ps}) == 3:
+            MSG.update(currency=pc, load=pl, save=ps)
+    except Exception:  # noqa: keep the documented wording
+        pass
+    finally:
+        shutil.rmtree(os.path.join(root, "learn-cur"), ignore_errors=True)
+        shutil.rmtree(os.path.join(root, "learn-hist"), ignore_errors=True)
+
+
 REG_SNIPPET = ("import json, ka.units as u\n"
                "print('REG ' + json.dumps([[x.symbol, x.singular_name, float(x.multiple)] for x in u.UNITS if 'cash' in x.quantities]))\n")
 
@@ -299,6 +367,7 @@ def config_states(rng, home_token="@HOME@"):
         St("base-usd", "bytes", b"base-currency=usd\n", dict(base="usd")),
         St("base-absent", "bytes", b"base-currency=zzz\n", dict(base="zzz")),
         St("nosave", "bytes", b"save-history=false\n", dict(save=False)),
+        St("base-own", "bytes", b"base-currency=qzq\n", dict(base="qzq")),      # a currency only the user's table knows
         St("huge", "bytes", big, dict(precision=5)),
         St("spaces", "bytes", " \tprecision 　=\x0b 7 \x0c\n".encode(), dict(precision=7)),
         St("unidigits", "bytes", "precision=٣\n".encode(), dict(precision=3)),
@@ -333,6 +402,9 @@ def currency_states(rng):
         St("bad-float", "bytes", (T1_TEXT + "xyz,xyzname,notanumber\n").encode(), dict(warn=True)),
         St("zero-rate", "bytes", (T1_TEXT + "zed,zedcoin,0\nneg,negcoin,-3\nnnn,nancoin,nan\n").encode(), dict(table=T1)),
         St("clash", "bytes", (T1_TEXT + "xx,dollar,1\naa,foos,1\nbb,foo,1\nm,s,1\nusd,usd,1\nyy,$,3\nq,noplura,1\neur,second,5\n").encode(), dict(table=T1)),
+        St("own-valid", "bytes", ("qzq,qzqcoin,4.0\n" + T1_TEXT).encode(), dict(table=dict(T1, qzq=4.0))),
+        St("own-then-short-row", "bytes", ("qzq,qzqcoin,4.0\n" + T1_TEXT + "xyz,onlytwo\n").encode()),
+        St("own-then-bad-float", "bytes", ("qzq,qzqcoin,4.0\n" + T1_TEXT + "xyz,xyzname,notanumber\n").encode(), dict(warn=True)),
         St("no-eur", "bytes", b"usd,usdollar,1\ngbp,britishpound,0.5\n", dict(table={"usd": 1.0, "gbp": 0.5})),
         St("whitespace", "bytes", b" \n\t\n\x0b\n"),
         St("parentfile", "parentfile"),
@@ -439,6 +511,7 @@ def _check(ctx, rng, R, C, CU, tmp):
 
     # ------------------------------------------------------------------ (a1) read_config
     cases = []
+    learn_cfg_warnings(C, tmp)
     n_struct = ctx.n(1200, 8000)
     n_raw = ctx.n(1200, 12000)
     files = [gen_config_file(rng, props) for _ in range(n_struct)]
@@ -456,7 +529,7 @@ def _check(ctx, rng, R, C, CU, tmp):
             real = "crash"
         else:
             real = canon_cfg(res[1], res[2])
-            if expect is not None and res[1] != expect:
+            if expect is not None and not same_settings(res[1], expect):
                 ctx.violation("config-valid-lines", repr(data[:300]), "CONFIG == %r (every valid line takes effect, the last one per key wins, "
                               "'=' stays in the value)" % (expect,), "CONFIG == %r" % (res[1],), "ka.config.read_config on a file with these bytes")
         if len(data) < 200:
@@ -523,8 +596,14 @@ def _check(ctx, rng, R, C, CU, tmp):
             triples.append((CS[0], s, US[0]))
         for s in US[1:]:
             triples.append((CS[0], HS[0], s))
+        # the base-currency setting is consumed together with the table: every base setting with every table-carrying state
+        for cs_ in CS:
+            if "base" in cs_.effect:
+                for us_ in US:
+                    if us_.kind == "bytes" and us_.name not in ("empty", "random", "whitespace"):
+                        triples.append((cs_, HS[0], us_))
         seen = set((a.name, b.name, c.name) for a, b, c in triples)
-        while len(triples) < 100:
+        while len(triples) < 130:
             t = (rng.choice(CS), rng.choice(HS), rng.choice(US))
             if (t[0].name, t[1].name, t[2].name) not in seen:
                 seen.add((t[0].name, t[1].name, t[2].name))
@@ -545,6 +624,8 @@ def _check(ctx, rng, R, C, CU, tmp):
             open(os.path.join(home, ".config", "ka"), "w").write("x")
         specials.append((mk, home))
     drates = default_rates(CU)
+    learn_warnings(root)
+    ctx.cov["warning_prefixes"] = dict(MSG)
     def run_job(j):
         home = j["home"]
         j["one"] = run_py(home, ["-m", "ka.cli", "{7 usd to eur, pi}"])
@@ -636,7 +717,7 @@ def _check(ctx, rng, R, C, CU, tmp):
                 ctx.violation(what, json.dumps(inp), exp_out + " (precision %s; table %s)" % (p_eff, "of the file" if table else "built-in"),
                               "rc=%s out=%r err=%r" % (rc, out, err[-300:]), how + " '{7 usd to eur, pi}'")
         exp_warn_c = us.kind in ("dir", "unreadable") or us.effect.get("warn") or us.name == "random"
-        nwarn = sum(1 for l in err.split("\n") if l.startswith("Failed to parse currency data"))
+        nwarn = sum(1 for l in err.split("\n") if l.startswith(MSG["currency"]))
         if "Traceback" not in err and nwarn != (1 if exp_warn_c else 0):
             ctx.violation("currency-warning", json.dumps(inp), "%d currency warning(s)" % (1 if exp_warn_c else 0), "stderr=%r" % err[-300:], how)
         # ---------------- correspondence, one-shot
@@ -656,8 +737,8 @@ def _check(ctx, rng, R, C, CU, tmp):
                           "printf '1+1\\n%%q\\n' | " + how)
         elif out != exp_out:
             ctx.violation("interpreter-session", json.dumps(inp), repr(exp_out), repr(out), "printf '1+1\\n%%q\\n' | " + how)
-        nload = sum(1 for l in err.split("\n") if l.startswith("Failed to load history"))
-        nsave = sum(1 for l in err.split("\n") if l.startswith("Failed to save history"))
+        nload = sum(1 for l in err.split("\n") if l.startswith(MSG["load"]))
+        nsave = sum(1 for l in err.split("\n") if l.startswith(MSG["save"]))
         after = j["hist_after"]
         sess = b"1+1\n%q"
         if "Traceback" not in err and rc == 0:
@@ -676,7 +757,7 @@ def _check(ctx, rng, R, C, CU, tmp):
         if "Traceback" in err or rc == -9:
             obs = "crash"
         else:
-            nwc = sum(1 for l in err.split("\n") if l.startswith("Failed to parse currency data"))
+            nwc = sum(1 for l in err.split("\n") if l.startswith(MSG["currency"]))
             obs = ("ok", "C" * nwc + "L" * nload)
         cases_int.append(("startup int %s %s %s" % (cs.model(), us.model(), hs.model()), obs, name))
         # save_history against the model
